@@ -203,6 +203,11 @@ def run(ctx: Ctx) -> None:
         for rank in (4, 5):
             w = uu.Parameter(torch.zeros(*([2] * rank)), "weight")
             expect_error("rank4-error", lambda: cls([w], lr=0.1, **kw), {"opt": oname, "rank": rank})
+            # the flag that admits untagged parameters says nothing about tagged weights without a fan-in
+            expect_error("rank4-error", lambda: cls([w, good], lr=0.1, allow_non_unit_scaling_params=True, **kw),
+                         {"opt": oname, "rank": rank, "allow_untagged": True})
+            expect_error("rank4-error", lambda: cls([{"params": [good, plain, w]}], lr=0.1, allow_non_unit_scaling_params=True, **kw),
+                         {"opt": oname, "rank": rank, "allow_untagged": True, "layout": "one-mixed-group"})
         # allowed: left unscaled, tagged ones still scaled
         for lrv, layout in ((0.25, "bare"), (torch.tensor(0.25), "bare"), (0.25, "one-mixed-group"), (0.25, "mixed-group-own-lr"),
                             (torch.tensor(0.25), "one-mixed-group"), (0.25, "untagged-first")):
